@@ -13,7 +13,9 @@ Contracts (from the property statement; oracles in oracles/o12_stereo.py, oracle
  3 stereogenic - a mark on a centre with two identical substituents is dropped at parsing; an edit that makes two substituents
                  equal (or removes one) removes the label in fix_stereo, an edit that keeps them distinct keeps it (RDKit's possible
                  centres as judge); a carbon centre with constitutionally distinct substituents is perceived as chiral.
- 4 wedges      - chython molblock (clean2d + SDF writer) read by RDKit == RDKit(str(m)) (tetrahedral part; the layout routine is
+ 4 wedges      - allenes: the wedge chython writes, read by an independent 3D determinant, is the arrangement its SMILES mark names;
+                 inverting the wedge in the block gives the mirror image on reading (no toolkit has allene stereo).
+                 chython molblock (clean2d + SDF writer) read by RDKit == RDKit(str(m)) (tetrahedral part; the layout routine is
                  stereo-blind so cis/trans geometry is not part of this contract); RDKit-drawn molblock (wedges + 2D geometry) read by
                  chython (calc_cis_trans) == original.
 """
@@ -134,6 +136,111 @@ def _rd_tetra_only(mol):
     return Chem.MolToSmiles(mol)
 
 
+def _det3(a, b, c):
+    return a[0] * (b[1] * c[2] - b[2] * c[1]) - a[1] * (b[0] * c[2] - b[2] * c[0]) + a[2] * (b[0] * c[1] - b[1] * c[0])
+
+
+def _geom_mark(P):
+    """independent geometric reading of a tetrahedral arrangement: P = 3D positions of the four neighbours in written order.
+    '@' = seen from the first neighbour the other three run anticlockwise.  With n1 = (0,0,1) and n2, n3, n4 anticlockwise in the
+    plane z = 0 (seen from +z) det[n2-n1, n3-n1, n4-n1] = -2.6 < 0, so '@' <=> det < 0."""
+    a, b, c, d = P
+    v = _det3([b[i] - a[i] for i in range(3)], [c[i] - a[i] for i in range(3)], [d[i] - a[i] for i in range(3)])
+    return '@' if v < 0 else '@@' if v > 0 else None
+
+
+def _v2000(block):
+    """minimal V2000 reader (fixed columns): [(x, y)], [(i, j, order, stereo flag)] with 0-based atom indices"""
+    lines = block.split('\n')
+    na, nb = int(lines[3][:3]), int(lines[3][3:6])
+    xy = [(float(l[:10]), float(l[10:20])) for l in lines[4:4 + na]]
+    bonds = [(int(l[:3]) - 1, int(l[3:6]) - 1, int(l[6:9]), int(l[9:12])) for l in lines[4 + na:4 + na + nb]]
+    return xy, bonds
+
+
+def _ill_conditioned(block, tol=.2):
+    """a wedge starts at a centre with three drawn neighbours whose two plain bonds are (anti)parallel within asin(tol): the drawing
+    does not determine a configuration (IUPAC 2006 graphical representation rules ST-1.1.10) - the layout routine is randomised and
+    stereo-blind, such drawings are outside the contract"""
+    xy, bonds = _v2000(block)
+    nb = {}
+    for i, j, o, f in bonds:
+        nb.setdefault(i, []).append(j)
+        nb.setdefault(j, []).append(i)
+    for i, j, o, f in bonds:
+        if f in (1, 6) and len(nb[i]) == 3:
+            a, b = [x for x in nb[i] if x != j]
+            ax, ay = xy[a][0] - xy[i][0], xy[a][1] - xy[i][1]
+            bx, by = xy[b][0] - xy[i][0], xy[b][1] - xy[i][1]
+            la, lb = (ax * ax + ay * ay) ** .5, (bx * bx + by * by) ** .5
+            if not la or not lb or abs(ax * by - ay * bx) / (la * lb) < tol:
+                return True
+    return False
+
+
+def _allene_wedges(m, out):
+    """4c: allenes with four heavy substituents - the wedge chython writes, read by an independent 3D determinant, must give the mark
+    chython writes in SMILES (extended tetrahedral rule); the same block with the wedge inverted must be read back as the mirror image"""
+    from chython import mdl_mol
+    from bounded import domains as D
+    sal = m.stereogenic_allenes
+    cs = [n for n, a in m.atoms() if a.stereo is not None and n in sal and None not in sal[n]]
+    if len(cs) != 1 or _n_labels(m) != 1 or m.rings_count:
+        return
+    c = cs[0]
+    k = m.copy()
+    k.kekule()
+    try:
+        k.clean2d()
+    except Exception:
+        out.note('clean2d-failed')
+        return
+    blk = _molblock(k)
+    xy, bonds = _v2000(blk)
+    nums = list(k)
+    wedges = [(nums[i], nums[j], 1 if f == 1 else -1) for i, j, o, f in bonds if f in (1, 6)]
+    smi, order = m.__format__('', _return_order=True)
+    pos = {n: i for i, n in enumerate(order)}
+    t1, t2 = m._stereo_allenes_terminals[c]
+    if pos[t1] > pos[t2]:
+        t1, t2 = t2, t1
+    sub = lambda t: sorted((x for x in m._bonds[t] if x in sal[c]), key=pos.get)
+    nb = sub(t1) + sub(t2)
+    written = '@@' if '@@' in smi else '@'
+    out.case(1, key=('allene-wedge', str(m)), sample={'contract': 'allene wedge vs 3D determinant', 'smiles': str(m), 'wedges': wedges})
+    if len(wedges) != 1 or wedges[0][0] not in (t1, t2) or wedges[0][1] not in nb:
+        out.v(f'allene-wedge-write:{m}', f'molblock of {m} carries wedges {wedges}: expected exactly one from an allene end to its substituent',
+              witness={'smiles': str(m), 'molblock': blk}, native=wedges)
+        return
+    wt, ws, v = wedges[0]
+    z = dict.fromkeys(nb, 0)
+    z[ws] = v
+    z[next(x for x in sub(wt) if x != ws)] = -v
+    coord = dict(zip(nums, xy))
+    got = _geom_mark([(*coord[x], z[x]) for x in nb])
+    if got != written:
+        out.v(f'allene-wedge-write:{m}', f'wedge written for {m} ({wt}->{ws} {"up" if v > 0 else "down"}) is the arrangement {got} for the written '
+              f'neighbour order {nb}, the SMILES says {written}', witness={'smiles': str(m), 'molblock': blk}, native={'geometric': got, 'smiles': smi})
+    for flip in (False, True):
+        b2 = blk
+        if flip:
+            lines = blk.split('\n')
+            na = int(lines[3][:3])
+            for i in range(4 + na, len(lines)):
+                if len(lines[i]) >= 12 and lines[i][9:12] in ('  1', '  6') and lines[i][:1] == ' ' and not lines[i].startswith('M'):
+                    lines[i] = lines[i][:9] + ('  6' if lines[i][9:12] == '  1' else '  1') + lines[i][12:]
+            b2 = '\n'.join(lines)
+        back = mdl_mol(b2)
+        D.norm(back)
+        mark = ('@@' if '@@' in str(back) else '@' if '@' in str(back) else None)
+        exp = written if not flip else ('@' if written == '@@' else '@@')
+        out.case(1)
+        if format(back, '!s') != format(m, '!s') or mark != exp:
+            out.v(f'allene-wedge-read:{m}:{"inverted" if flip else "same"}', f'molblock of {m} with the wedge {"inverted" if flip else "as written"} '
+                  f'is read as {back}; expected the {"mirror image" if flip else "same molecule"}', witness={'smiles': str(m), 'molblock': b2},
+                  native=str(back))
+
+
 class _Out:
     def __init__(self):
         self.n = 0
@@ -201,7 +308,7 @@ def part1(run):
     for text, fam, form, cls, o, a, b, err in res:
         nontrivial = ('@' in text or '/' in text or '\\' in text)
         run.case(1, key=('spelling', text) if nontrivial else None,
-                 sample={'contract': 'spelling', 'text': text, 'chython': o, 'rdkit': a} if fam in ('T3', 'CT22') else None)
+                 sample={'contract': 'spelling', 'text': text, 'chython': o, 'rdkit': a} if text in ('[C@H](F)(Cl)Br', 'C1(/Cl)=C(Br)/I.F1') else None)
         if err is not None:
             fails.setdefault((fam[:2] if fam.startswith('CT') else fam, form), []).append({'text': text, 'error': err})
             continue
@@ -423,6 +530,8 @@ def _molecule(arg):
     from oracles import o12_stereo as O
     from rdkit import Chem
     from rdkit.Chem import AllChem
+    import random
+    random.seed(f'{env.SEED}:{s}')   # clean2d draws its layout start from the global generator: make the run reproducible
     out = _Out()
     r = D.rnd('c12:' + s)
     m = D.parse(s)
@@ -527,6 +636,7 @@ def _molecule(arg):
         else:
             _edit_contracts(m, str(m), orb, r, out)
             if do_wedge:
+                _allene_wedges(m, out)
                 from rdkit.Chem import AllChem
                 ref_t = _rd_tetra_only(Chem.MolFromSmiles(str(m)))
                 kk = m.copy()
@@ -542,7 +652,9 @@ def _molecule(arg):
                     rm = Chem.MolFromMolBlock(blk)
                     out.case(1, key=('wedge-write', str(m)), sample={'contract': 'wedge write', 'smiles': str(m)})
                     got = None if rm is None else _rd_tetra_only(rm)
-                    if got != ref_t:
+                    if got != ref_t and _ill_conditioned(blk):
+                        out.note('wedge-drawing-ill-conditioned')   # plain bonds collinear at a wedged 3-neighbour centre: no defined reading
+                    elif got != ref_t:
                         out.v(f'wedge-write:{m}', f'molblock written for {m} is read by RDKit as {got}, str(m) as {ref_t}',
                               witness={'smiles': str(m), 'molblock': blk}, native={'rdkit(molblock)': got, 'rdkit(str)': ref_t})
                 rm = Chem.MolFromSmiles(str(m))
@@ -565,7 +677,9 @@ def _generated_labelled():
     """one labelled representative per generated skeleton (for the edit / wedge contracts)"""
     return ['C[C@H](O)CC', 'C[C@@](F)(Cl)Br', 'F[C@H](Cl)Br', 'C[C@](N)(O)CC', 'C[C@H]1CCC[C@@H](O)C1', 'O[C@H]1CCCC[C@H]1N', 'C[C@@H](F)[C@H](Cl)C',
             'C[C@H](F)/C=C/C', 'F/C=C(/Cl)Br', 'C[C@]1(O)CCCO1', 'OC[C@H]1O[C@@H](O)[C@H](O)[C@@H](O)[C@@H]1O', 'C[C@H]1C[C@@H]2CC[C@H]1C2',
-            'FC(Cl)=[C@]=C(Br)I', 'C[C@H](N)C(=O)N[C@@H](CO)C(=O)O', 'O1CCC[C@]12CCCN2', 'C[C@H]1CCC/C(=C\\C)C1']
+            'FC(Cl)=[C@]=C(Br)I', 'C[C@H](N)C(=O)N[C@@H](CO)C(=O)O', 'O1CCC[C@]12CCCN2', 'C[C@H]1CCC/C(=C\\C)C1',
+            'FC(Cl)=[C@@]=C(Br)I', 'CC(O)=[C@]=C(N)Cl', 'CC(O)=[C@@]=C(N)Cl', 'ClC(F)=[C@]=C(I)Br', 'CCC(C)=[C@]=C(C)N', 'FC(Cl)=C=[C@]=C=C(Br)I',
+            'FC(Cl)=C=[C@@]=C=C(Br)I', 'OC(C)=[C@@]=C(CC)Cl', 'CC(=[C@]=C(F)Cl)CC']
 
 
 def bounded(run):
